@@ -10,6 +10,7 @@ from . import eff as EFF
 # failure convention of the OS / libc calls the library makes
 OS_FAIL = {
     "malloc": "null", "calloc": "null", "realloc": "null", "fopen": "null", "fdopen": "null",
+    "strdup": "null", "strndup": "null", "aligned_alloc": "null", "tmpfile": "null", "opendir": "null",
     "mmap": "mapfailed", "mremap": "mapfailed",
     "open": "neg", "read": "neg", "write": "neg",
     "fstat": "nonzero", "stat": "nonzero", "fclose": "nonzero", "fflush": "nonzero",
@@ -1107,7 +1108,8 @@ def _loop_bound(prog, parents):
 # --------------------------------------------------------------------------
 
 ACQUIRE = {"open": ("close", "neg"), "fopen": ("fclose", "null"), "fdopen": ("fclose", "null"),
-           "mmap": ("munmap", "mapfailed"), "malloc": ("free", "null"), "calloc": ("free", "null")}
+           "mmap": ("munmap", "mapfailed"), "malloc": ("free", "null"), "calloc": ("free", "null"),
+           "strdup": ("free", "null"), "strndup": ("free", "null")}
 
 
 class ResDomain:
